@@ -430,6 +430,25 @@ func resolveSpill(v ssa.Value) ssa.Value {
 			return v
 		}
 		al, ok := u.X.(*ssa.Alloc)
+		if fv, isFV := u.X.(*ssa.FreeVar); isFV {
+			// a variable captured from the enclosing function: the cell it is bound to
+			fn := fv.Parent()
+			if fn.Parent() != nil {
+				idx := -1
+				for k, q := range fn.FreeVars {
+					if q == fv {
+						idx = k
+					}
+				}
+				eachInstr(fn.Parent(), func(i ssa.Instruction) {
+					if mc, isMC := i.(*ssa.MakeClosure); isMC && mc.Fn == ssa.Value(fn) && idx >= 0 && idx < len(mc.Bindings) {
+						if a2, isAl := mc.Bindings[idx].(*ssa.Alloc); isAl {
+							al, ok = a2, true
+						}
+					}
+				})
+			}
+		}
 		if !ok || al.Referrers() == nil {
 			return v
 		}
